@@ -176,7 +176,7 @@ func runPath(ld *loaded, s *Solver, c *Config, req Request) (res *PathResult) {
 	}
 	e := &Engine{prog: ld.prog, pkg: ld.pkg, s: s, globals: map[*ssa.Global]*Loc{}, trace: req.Prefix,
 		res: res, harness: req.Harness, funcs: map[string]bool{}, exts: map[string]bool{}, conc: map[string]int64{},
-		maxSteps: c.MaxSteps, maxEnum: c.MaxEnum, unwind: c.Unwind, noMerge: c.NoMerge, clock: bv(0, 64), wantWitness: req.Witness}
+		maxSteps: c.MaxSteps, maxEnum: c.MaxEnum, unwind: c.Unwind, noMerge: c.NoMerge, clock: bv(0, 64), wantWitness: req.Witness, dumpDir: c.DumpDir, dumpMax: 3}
 	curSolver = s
 	q0, d0 := s.queries, s.dur
 	s.push()
